@@ -1,5 +1,6 @@
 import PfModel.DriverVal
 import PfModel.Model.Lazy
+import PfModel.Model.PipeCache
 /-! Driver for C18 (`lazy.run`): a session of lazy calls, `evaluate()`s and `construct_dag()` blocks on one pipeline. -/
 open Lean PF PF.Drv PF.Pipe PF.Lazy
 
@@ -80,9 +81,16 @@ def handle (m : String) (a : Json) : R Json := do
   | "session" =>
     let fs ← listF getFunc a "funcs"
     let ops ← asArr (← fld a "ops")
-    let s0 : LSt := { memo := [], used := [], usedNone := false, nodes := [], tg := none, ev := ⟨[], []⟩ }
+    -- the lazy pipeline's own cache: `"own": true` (it has one) and the output names of the `cache=True` functions
+    let own := (← optF asBool a "own").getD false
+    let cfn := (← optF (asList (asList asStr)) a "cached").getD []
+    let s0 : LSt := { memo := [], used := [], usedNone := false, nodes := [], tg := none, ev := ⟨[], []⟩,
+                      own := if own then some [] else none, cfn := cfn }
     let (rs, s) ← session fs ops s0 [] []
-    return jObj [("ops", jArr rs), ("table", jList putNode s.nodes)]
+    -- the hypotheses of the theorems (`PF.PipeCache.WF`), evaluated on this pipeline, and the agreement of the two root-set models
+    let wf := PipeCache.rankedB fs && PipeCache.uniqueOutB fs && PipeCache.consistentDefaultsB PipeCache.encVal fs
+    return jObj [("ops", jArr rs), ("table", jList putNode s.nodes), ("wf", jBool wf), ("roots_ok", jBool (PipeCache.rootsAgreeB fs)),
+                 ("own", jOpt (fun c => jNat c.length) s.own)]
   | _ => .error s!"unknown entry {m}"
 
 def main : IO Unit := loop handle
